@@ -18,6 +18,22 @@ void ob_c05c_length(size_t n)
       OBLIGE("C05.length.whole_axis_keeps_its_extent", (size_t)nm::len(r) == 1 && (size_t)nm::at(r, 0) == n, 0); }
 }
 template void ob_c05c_length<1>(size_t); template void ob_c05c_length<2>(size_t); template void ob_c05c_length<3>(size_t); template void ob_c05c_length<-1>(size_t); template void ob_c05c_length<-2>(size_t);
+// ---- the position a sliced axis reads, for a symbolic extent and a symbolic result index: a[::k][i] is a[i*k], a[::-k][i] is a[n-1-i*k];
+// with i below the length the position is inside the axis (the in-bounds clause of C02 for slices, for every extent)
+template <int STEP>
+void ob_c05c_position(size_t n, size_t i)
+{
+    ASSUME(n >= 1 && n < (1ul << 40));
+    constexpr size_t k = (size_t)(STEP < 0 ? -STEP : STEP);
+    ASSUME(i < (n + k - 1) / k);
+    const std::array<size_t,1> shape{n}; const std::array<size_t,1> idx{i};
+    auto r = nm::index::slice(idx, shape, nmtools_tuple{None, None, STEP});
+    const size_t want = STEP > 0 ? i * k : n - 1 - i * k;
+    OBLIGE("C05.position.whole_axis_with_a_step", (size_t)nm::len(r) == 1 && (size_t)nm::at(r, 0) == want, STEP + 10);
+    // (for |step| > 1 "i < ceil(n/k) implies i*k < n" is integer arithmetic LLVM does not do; it follows from the position law above)
+    if constexpr (k == 1) OBLIGE("C02.slice.position_inside_the_axis|C05.position.inside_the_axis", (size_t)nm::at(r, 0) < n, STEP + 10);
+}
+template void ob_c05c_position<1>(size_t, size_t); template void ob_c05c_position<2>(size_t, size_t); template void ob_c05c_position<3>(size_t, size_t); template void ob_c05c_position<-1>(size_t, size_t); template void ob_c05c_position<-2>(size_t, size_t);
 void ob_c05c_negctl(size_t n)
 {
     ASSUME(n >= 1 && n < (1ul << 40));
